@@ -411,7 +411,7 @@ func tagPairs(f func([]byte)) {
 		}
 	}
 	for _, a := range forms {
-		for _, end := range []string{" ", "\t", "\n", "\f", "/", ">", "\f>", " x=y>", "\fsrc=x>"} {
+		for _, end := range []string{" ", "\t", "\n", "\r\n", "\r", "\nsrc=x>\n", "\r\nsrc=x>\r\n", "\f", "/", ">", "\f>", " x=y>", "\fsrc=x>"} {
 			f([]byte("<div><" + a + end + "\n"))
 			f([]byte("<!-- c --> <" + a + end + "\n"))
 		}
@@ -655,8 +655,19 @@ func vocabularyTags(f func([]byte)) {
 	}
 }
 
+// backslashLabels yields link labels in which a backslash stands before a character that cannot be escaped (a letter, a digit, a
+// non-ASCII character) - in the middle and as the label's last character - in definitions and in both labels of full references.
+func backslashLabels(f func([]byte)) {
+	for _, l := range []string{"a\\b", "chapter\\1", "C:\\x ", "a\\\u00e9", "\\a", "a\\b c", "a\\]", "a \\b\n"} {
+		f([]byte("[" + l + "]: /url\n\n[" + l + "] [see][" + l + "]\n"))
+		f([]byte("[see][" + l + "] ![" + l + "][]\n\n[" + l + "]: /url 't'\n"))
+		f([]byte("> [" + l + "]: /url\n> [" + l + "]\n"))
+	}
+}
+
 // structured yields the deterministic structured families shared by the input sets of most checks.
 func (s *inputSource) structured(thorough bool, f func([]byte)) {
+	backslashLabels(f)
 	vocabularyTags(f)
 	htmlBlockLines(f)
 	indentedFences(f)
